@@ -206,3 +206,16 @@ Example prefix_exact_clean :
   map ser_tok (idents (o_tokens (w_normal (transform with_prefix clean_tree (P 0 46))))) =
   map ser_tok (idents (map e_tok (so_normal (expected with_prefix clean_tree)))).
 Proof. vm_compute. reflexivity. Qed.
+
+(* D29  @a 75rpx;  : an rpx dimension directly in an at-rule prelude stays `75rpx` (the unit test
+   transform_rpx_in_simple_at_rules pins it); the specification (C10: at-rule preludes) wants `10vw` *)
+Definition d29_tree : list node :=
+  [Leaf (TAt [97]) (P 0 0); Leaf (TWs [32]) (P 0 2);
+   Leaf (TDim (mknum false (Some 75%Z) 1117126656 [55;53]) s_rpx) (P 0 3); Leaf TSemi (P 0 8)].
+
+Theorem prelude_rpx_refuted_d29 :
+  wf_tree plain d29_tree = true /\ model_conforms plain d29_tree (P 0 9) = false /\
+  known plain d29_tree = [K29] /\
+  map ser_tok (o_tokens (w_normal (transform plain d29_tree (P 0 9)))) = [[64;97]; [32]; [55;53;114;112;120]; [59]] /\
+  map (fun e => ser_tok (e_tok e)) (so_normal (expected plain d29_tree)) = [[64;97]; [49;48;118;119]; [59]].
+Proof. vm_compute. repeat split; reflexivity. Qed.
